@@ -75,6 +75,9 @@ func execute(t *testing.T, prop, tier string, c *Chooser) (res *RunResult) {
 	}()
 	// destination values for Root/Object/Array: fresh per run, then kept across all documents of the run (drawn per run)
 	walkDsts = &walkDstCache{}
+	findDsts = &walkDstCache{}
+	blindDsts = &walkDstCache{reuse: true} // (a run starts from fresh destinations: one seed, one execution)
+	blindElems = nil
 	if prop != "C20" && prop != "C11X" {
 		// (C20 runs several caller goroutines at once: a shared destination cache would be the harness's own race)
 		walkDsts.reuse = c.Intn("walkdsts", 2) == 1
